@@ -1,56 +1,275 @@
 """
 Translator for C17: ipv8/attestation/identity/community.py  ->  lean/Ipv8/C17/Gen.lean
 
-What is translated (fixed statement shapes, compared on the normalised source text `ast.unparse` gives; logging calls
-and docstrings are ignored; anything else raises TranslatorError):
+What is translated:
 
   * add_known_hash / pad_hash : the length that triggers SHA-1 padding, the order of the stored tuple
-  * should_sign               : every `if <test>: return False` guard -> one `Guard` constructor; the tuple indices used
+  * should_sign               : every guard `if <test>: return False` -> one `Guard` constructor; the tuple indices used
                                 by the guards are resolved against the tuple add_known_hash stores (a guard that compares
                                 the subject key with the *name* slot is an error, not a different guard); the window
-                                constant of the age guard; the order constraints between guards
+                                constant of the age guard; the dependency order between guards
   * on_request_missing        : whole body, with the default of `permissions.get(peer, <default>)` as a hole
   * request_attestation_advertisement : whole body (permission := len(token_chain) for exactly that peer)
-  * SAFE_UDP_PACKET_LENGTH
+  * SAFE_UDP_PACKET_LENGTH, and that `self.permissions` is written nowhere else
   * whether _received_disclosure_for_attest records the metadata it attests to (`self.attested_metadata.add(...)`)
+
+Every function is NORMALISED before its shape is compared, so that equivalent rewrites translate to the same Lean:
+  - docstrings, logging calls and `pass` are dropped;
+  - parameters are renamed positionally to the names used here; other locals are alpha-renamed in binding order;
+  - a local that is assigned once is inlined into its uses when its value is side-effect free, or when it is used once in
+    the directly following statement (so introducing or removing helper variables, tuple unpacking of the stored
+    registration, renaming locals do not matter);
+  - keyword arguments of calls to methods of this class and to the four identity payload classes become positional;
+  - comparisons are oriented (`a != b` / `b != a`, `a > b` / `b < a`, `not x in y`, `not a == b`), `if A or B: return False`
+    is split into one guard per disjunct, independent guards may appear in any order that respects their data
+    dependencies, `if x is None: <log> else: BODY`, `if x is not None: BODY` and `if x is None: <log>; return` + BODY
+    are the same.
+Anything outside these shapes raises TranslatorError (treated by the runner like a proof that no longer checks).
 """
 from __future__ import annotations
 
 import ast
+import copy
 import re
 
 from vlib import REPO, TranslatorError
 
 SRC = "ipv8/attestation/identity/community.py"
-K = "self.known_attestation_hashes[attribute_hash]"
+PAYLOAD_SRC = "ipv8/attestation/identity/payload.py"
+KNOWN = "self.known_attestation_hashes"
+ATTR_HASH = "pseudonym.tree.elements[metadata.token_pointer].content_hash"
+K = f"{KNOWN}[{ATTR_HASH}]"
+MINE = "self.my_peer.public_key.key_to_bin()"
+TRANSACTION = "json.loads(metadata.serialized_json_dict)"
+IMPURE_PREFIXES = ("self.self_advertise", "self.ez_send", "self.pseudonym_manager.", "self.identity_manager.",
+                   "pseudonym.create_attestation", "pseudonym.add_attestation", "self._received_disclosure_for_attest",
+                   "self.add_known_hash", "self.request_attestation_advertisement")
 
 
+# ---- normalisation -----------------------------------------------------------------------------------------------
 def _is_log(st) -> bool:
     return (isinstance(st, ast.Expr) and isinstance(st.value, ast.Call)
             and ast.unparse(st.value.func).startswith("self.logger."))
 
 
-def _body(fn):
-    body = list(fn.body)
-    if body and isinstance(body[0], ast.Expr) and isinstance(body[0].value, ast.Constant) and isinstance(body[0].value.value, str):
-        body = body[1:]
-    return [s for s in body if not _is_log(s)]
+def _is_doc(st) -> bool:
+    return isinstance(st, ast.Expr) and isinstance(st.value, ast.Constant) and isinstance(st.value.value, str)
 
 
-def _strip(stmts):
-    return [s for s in stmts if not _is_log(s)]
+def _clean(stmts):
+    """drop docstrings, logging, pass — recursively"""
+    out = []
+    for st in stmts:
+        if _is_log(st) or _is_doc(st) or isinstance(st, ast.Pass):
+            continue
+        st = copy.deepcopy(st)
+        for field in ("body", "orelse"):
+            if hasattr(st, field) and isinstance(getattr(st, field), list):
+                setattr(st, field, _clean(getattr(st, field)))
+        out.append(st)
+    return out
 
 
-def _returns_false(st: ast.If) -> bool:
-    b = _strip(st.body)
-    return (not st.orelse and len(b) == 1 and isinstance(b[0], ast.Return)
-            and isinstance(b[0].value, ast.Constant) and b[0].value.value is False)
+class _Rename(ast.NodeTransformer):
+    def __init__(self, mapping):
+        self.m = mapping
+
+    def visit_Name(self, node):
+        if node.id in self.m:
+            return ast.copy_location(ast.Name(id=self.m[node.id], ctx=node.ctx), node)
+        return node
+
+    def visit_arg(self, node):
+        if node.arg in self.m:
+            node.arg = self.m[node.arg]
+        return node
+
+
+class _Subst(ast.NodeTransformer):
+    def __init__(self, name, expr):
+        self.name, self.expr = name, expr
+
+    def visit_Name(self, node):
+        if node.id == self.name and isinstance(node.ctx, ast.Load):
+            return copy.deepcopy(self.expr)
+        return node
+
+
+def _stores(stmts):
+    """names bound anywhere in the statements, in order of first binding"""
+    seen = []
+    for st in stmts:
+        for n in ast.walk(st):
+            if isinstance(n, ast.Name) and isinstance(n.ctx, (ast.Store, ast.Del)) and n.id not in seen:
+                seen.append(n.id)
+            if isinstance(n, ast.comprehension):
+                pass
+    return seen
+
+
+def _n_stores(stmts, name):
+    return sum(1 for st in stmts for n in ast.walk(st)
+               if isinstance(n, ast.Name) and n.id == name and isinstance(n.ctx, ast.Store)) + \
+        sum(1 for st in stmts for n in ast.walk(st) if isinstance(n, ast.AugAssign)
+            and isinstance(n.target, ast.Name) and n.target.id == name)
+
+
+def _n_loads(stmts, name):
+    return sum(1 for st in stmts for n in ast.walk(st)
+               if isinstance(n, ast.Name) and n.id == name and isinstance(n.ctx, ast.Load))
+
+
+def _pure(expr) -> bool:
+    for n in ast.walk(expr):
+        if isinstance(n, ast.Call):
+            f = ast.unparse(n.func)
+            if f.startswith(IMPURE_PREFIXES):
+                return False
+        if isinstance(n, (ast.Await, ast.Yield, ast.YieldFrom, ast.NamedExpr)):
+            return False
+    return True
+
+
+def _comp_targets(stmts):
+    out = set()
+    for st in stmts:
+        for n in ast.walk(st):
+            if isinstance(n, ast.comprehension):
+                for m in ast.walk(n.target):
+                    if isinstance(m, ast.Name):
+                        out.add(m.id)
+    return out
+
+
+def _inline(stmts):
+    """inline single-assignment locals (top level of the function body only)"""
+    stmts = list(stmts)
+    changed = True
+    while changed:
+        changed = False
+        comp = _comp_targets(stmts)
+        for i, st in enumerate(stmts):
+            if not (isinstance(st, ast.Assign) and len(st.targets) == 1):
+                continue
+            tgt = st.targets[0]
+            rest = stmts[i + 1:]
+            pairs = None
+            if isinstance(tgt, ast.Name):
+                pairs = [(tgt.id, st.value)]
+            elif isinstance(tgt, ast.Tuple) and all(isinstance(e, ast.Name) for e in tgt.elts) and _pure(st.value):
+                pairs = [(e.id, ast.Subscript(value=copy.deepcopy(st.value), slice=ast.Constant(value=j), ctx=ast.Load()))
+                         for j, e in enumerate(tgt.elts)]
+            if not pairs:
+                continue
+            if any(_n_stores(stmts, n) != 1 or n in comp for n, _ in pairs):
+                continue
+            ok = all(_pure(v) for _, v in pairs)
+            if not ok and len(pairs) == 1 and rest and _n_loads(rest, pairs[0][0]) == 1 \
+                    and _n_loads(rest[:1], pairs[0][0]) == 1 and not isinstance(rest[0], (ast.For, ast.While)):
+                ok = True
+            if not ok:
+                continue
+            new_rest = rest
+            for n, v in pairs:
+                new_rest = [ast.fix_missing_locations(_Subst(n, v).visit(copy.deepcopy(s))) for s in new_rest]
+            stmts = stmts[:i] + new_rest
+            changed = True
+            break
+    return stmts
+
+
+class _Orient(ast.NodeTransformer):
+    """orient comparisons; push `not` into comparisons"""
+
+    def visit_UnaryOp(self, node):
+        self.generic_visit(node)
+        if isinstance(node.op, ast.Not) and isinstance(node.operand, ast.Compare) and len(node.operand.ops) == 1:
+            neg = {ast.Eq: ast.NotEq, ast.NotEq: ast.Eq, ast.In: ast.NotIn, ast.NotIn: ast.In, ast.Is: ast.IsNot,
+                   ast.IsNot: ast.Is, ast.Lt: ast.GtE, ast.GtE: ast.Lt, ast.Gt: ast.LtE, ast.LtE: ast.Gt}
+            c = node.operand
+            return self.visit_Compare(ast.Compare(left=c.left, ops=[neg[type(c.ops[0])]()], comparators=c.comparators))
+        return node
+
+    def visit_Compare(self, node):
+        self.generic_visit(node)
+        if len(node.ops) != 1:
+            return node
+        op, a, b = node.ops[0], node.left, node.comparators[0]
+        if isinstance(op, (ast.Eq, ast.NotEq)) and ast.unparse(a) > ast.unparse(b):
+            return ast.Compare(left=b, ops=[op], comparators=[a])
+        if isinstance(op, ast.Lt):
+            return ast.Compare(left=b, ops=[ast.Gt()], comparators=[a])
+        if isinstance(op, ast.LtE):
+            return ast.Compare(left=b, ops=[ast.GtE()], comparators=[a])
+        return node
+
+
+class _Positional(ast.NodeTransformer):
+    """keyword arguments -> positional, for calls whose parameter list is known"""
+
+    def __init__(self, sigs):
+        self.sigs = sigs
+
+    def visit_Call(self, node):
+        self.generic_visit(node)
+        f = ast.unparse(node.func)
+        params = self.sigs.get(f)
+        if params and node.keywords and all(k.arg for k in node.keywords):
+            args = list(node.args)
+            kw = {k.arg: k.value for k in node.keywords}
+            for name in params[len(args):]:
+                if name in kw:
+                    args.append(kw.pop(name))
+                else:
+                    break
+            if not kw:
+                return ast.Call(func=node.func, args=args, keywords=[])
+        return node
+
+
+def normalise(fn: ast.FunctionDef, params: list[str], sigs) -> list[ast.stmt]:
+    got = [a.arg for a in fn.args.args]
+    if len(got) != len(params) or fn.args.vararg or fn.args.kwarg or fn.args.kwonlyargs:
+        raise TranslatorError(f"{fn.name}: parameter list {got} does not match {params}")
+    fn = copy.deepcopy(fn)
+    body = _clean(fn.body)
+    # two-step renaming so that swapped parameter names cannot collide
+    tmp = {a: f"__p{i}" for i, a in enumerate(got)}
+    body = [_Rename(tmp).visit(s) for s in body]
+    body = [_Rename({f"__p{i}": p for i, p in enumerate(params)}).visit(s) for s in body]
+    body = [_Positional(sigs).visit(s) for s in body]
+    body = _inline(body)
+    locs = [n for n in _stores(body) if n not in params]
+    tmp = {n: f"__l{i}" for i, n in enumerate(locs)}
+    body = [_Rename(tmp).visit(s) for s in body]
+    body = [_Rename({f"__l{i}": f"v{i}" for i in range(len(locs))}).visit(s) for s in body]
+    body = [ast.fix_missing_locations(_Orient().visit(s)) for s in body]
+    return body
 
 
 def _text(stmts) -> str:
     return "\n".join(ast.unparse(s) for s in stmts)
 
 
+def _norm_expr(src: str) -> str:
+    return ast.unparse(_Orient().visit(ast.parse(src, mode="eval").body))
+
+
+def _returns_false(st) -> bool:
+    return (isinstance(st, ast.If) and not st.orelse and len(st.body) == 1 and isinstance(st.body[0], ast.Return)
+            and isinstance(st.body[0].value, ast.Constant) and st.body[0].value.value is False)
+
+
+def _disjuncts(test):
+    if isinstance(test, ast.BoolOp) and isinstance(test.op, ast.Or):
+        out = []
+        for v in test.values:
+            out += _disjuncts(v)
+        return out
+    return [test]
+
+
+# ---- the translation ----------------------------------------------------------------------------------------------
 def translate(path=None) -> str:
     p = path or (REPO / SRC)
     tree = ast.parse(p.read_text())
@@ -66,17 +285,31 @@ def translate(path=None) -> str:
         raise TranslatorError("class IdentityCommunity not found")
     fns = {n.name: n for n in cls.body if isinstance(n, ast.FunctionDef)}
     for need in ("add_known_hash", "pad_hash", "should_sign", "on_request_missing",
-                 "request_attestation_advertisement", "_received_disclosure_for_attest"):
+                 "request_attestation_advertisement", "_received_disclosure_for_attest", "self_advertise"):
         if need not in fns:
             raise TranslatorError(f"IdentityCommunity.{need} not found")
     limit = consts.get("SAFE_UDP_PACKET_LENGTH")
     if not isinstance(limit, int):
         raise TranslatorError("SAFE_UDP_PACKET_LENGTH is not an integer constant")
+    # call signatures used to make keyword arguments positional
+    sigs = {"self." + n: [a.arg for a in f.args.args][1:] for n, f in fns.items()}
+    ppath = (REPO / PAYLOAD_SRC) if path is None else p.parent / "payload.py"
+    if ppath.exists():
+        for node in ast.parse(ppath.read_text()).body:
+            if isinstance(node, ast.ClassDef):
+                for st in node.body:
+                    if isinstance(st, ast.Assign) and ast.unparse(st.targets[0]) == "names":
+                        try:
+                            sigs[node.name] = list(ast.literal_eval(st.value))
+                        except Exception:
+                            pass
 
     # ---- add_known_hash ---------------------------------------------------------------------------------------
-    b = _body(fns["add_known_hash"])
+    b = normalise(fns["add_known_hash"], ["self", "attribute_hash", "name", "public_key", "metadata"], sigs)
     txt = _text(b)
     m = re.fullmatch(r"if len\(attribute_hash\) == (\d+):\n    attribute_hash = self\.pad_hash\(attribute_hash\)\n"
+                     r"self\.known_attestation_hashes\[attribute_hash\] = \((.*)\)", txt) or \
+        re.fullmatch(r"if (\d+) == len\(attribute_hash\):\n    attribute_hash = self\.pad_hash\(attribute_hash\)\n"
                      r"self\.known_attestation_hashes\[attribute_hash\] = \((.*)\)", txt)
     if not m:
         raise TranslatorError("add_known_hash has an unexpected shape:\n" + txt)
@@ -86,7 +319,7 @@ def translate(path=None) -> str:
     if sorted(slots) != sorted(want):
         raise TranslatorError(f"add_known_hash stores {slots}, expected a permutation of {list(want)}")
     idx = {want[s]: i for i, s in enumerate(slots)}      # field -> tuple index
-    pb = _body(fns["pad_hash"])
+    pb = normalise(fns["pad_hash"], ["self", "attribute_hash"], sigs)
     pm = re.fullmatch(r"return (b'.*') \+ attribute_hash", _text(pb))
     if not pm:
         raise TranslatorError("pad_hash has an unexpected shape:\n" + _text(pb))
@@ -94,89 +327,124 @@ def translate(path=None) -> str:
 
     # ---- should_sign ---------------------------------------------------------------------------------------------
     guards, notes = [], []
-    b = _body(fns["should_sign"])
-    if [a.arg for a in fns["should_sign"].args.args] != ["self", "pseudonym", "metadata"]:
-        raise TranslatorError("should_sign signature changed")
+    fields_seen: list[str] = []
+    b = normalise(fns["should_sign"], ["self", "pseudonym", "metadata"], sigs)
 
-    def slot(i: str, field: str, guard: str):
-        if int(i) != idx[field]:
-            other = [f for f, j in idx.items() if j == int(i)]
+    def slot(i: int, field: str, guard: str):
+        if i != idx[field]:
+            other = [f for f, j in idx.items() if j == i]
             raise TranslatorError(f"should_sign: the {guard} guard reads tuple slot {i} "
                                   f"({other[0] if other else 'out of range'}), the {field} is stored in slot {idx[field]}")
+
+    def find_slot(c: str, template: str):
+        """template contains {i}; returns the matching index or None"""
+        for i in range(8):
+            if c == _norm_expr(template.format(i=i)):
+                return i
+        return None
+
+    def deps_ok(text: str, where: str):
+        if "pseudonym.tree.elements[" in text and "tokenKnown" not in guards:
+            raise TranslatorError(f"should_sign: {where} reads the token before the token-known guard")
+        if KNOWN + "[" in text and "registered" not in guards:
+            raise TranslatorError(f"should_sign: {where} reads the registration before it is known to exist")
+        if TRANSACTION + "['name']" in text and "name" not in fields_seen:
+            raise TranslatorError(f"should_sign: {where} reads transaction['name'] before its presence is checked")
+
+    def one_guard(c_node):
+        c = ast.unparse(c_node)
+        if c == _norm_expr("metadata.token_pointer not in pseudonym.tree.elements"):
+            guards.append("tokenKnown")
+            return
+        fm = re.fullmatch(r"'(\w+)' not in set\(" + re.escape(TRANSACTION) + r"\.keys\(\)\)", c) or \
+            re.fullmatch(r"'(\w+)' not in " + re.escape(TRANSACTION) + r"(?:\.keys\(\))?", c)
+        if fm:
+            n = fm.group(1)
+            if n not in ("name", "date", "schema"):
+                raise TranslatorError(f"should_sign: required field outside name/date/schema: {n}")
+            if not fields_seen:
+                guards.append("FIELDS")
+            fields_seen.append(n)
+            return
+        deps_ok(c, f"`{c[:80]}`")
+        if c == _norm_expr(f"{ATTR_HASH} not in {KNOWN}"):
+            guards.append("registered")
+            return
+        i = find_slot(c, "pseudonym.public_key.key_to_bin() != " + K + "[{i}]")
+        if i is not None:
+            slot(i, "key", "subject-key")
+            guards.append("subjectKey")
+            return
+        for tmpl in ("time() > " + K + "[{i}] + {n}", "time() > {n} + " + K + "[{i}]", "time() - " + K + "[{i}] > {n}"):
+            mm = re.fullmatch(re.escape(_norm_expr(tmpl.format(i=7, n=987654321))).replace("7", r"(\d+)", 1)
+                              .replace("987654321", r"(\d+)"), c)
+            if mm:
+                g = mm.groups()
+                i, n = (int(g[0]), int(g[1])) if tmpl.index("{i}") < tmpl.index("{n}") else (int(g[1]), int(g[0]))
+                slot(i, "time", "age")
+                guards.append(f".fresh {n}")
+                return
+        i = find_slot(c, TRANSACTION + "['name'] != " + K + "[{i}]")
+        if i is not None:
+            slot(i, "name", "name")
+            guards.append("nameMatches")
+            return
+        if isinstance(c_node, ast.BoolOp) and isinstance(c_node.op, ast.And) and len(c_node.values) == 2:
+            a_, b_ = (ast.unparse(v) for v in c_node.values)
+            i1 = find_slot(a_, K + "[{i}] is not None")
+            extras = "{{k: v for k, v in " + TRANSACTION + ".items() if k not in {lst}}} != " + K + "[{i}]"
+            i2 = None
+            for lst in ("['name', 'date', 'schema']", "('name', 'date', 'schema')", "{'name', 'date', 'schema'}"):
+                cand = re.sub(r"\bv\d+\b", "V", b_)
+                for i in range(8):
+                    want_ = re.sub(r"\b[kv]\b", "V", _norm_expr(extras.format(lst=lst, i=i)))
+                    if cand == want_:
+                        i2 = i
+                if i2 is not None:
+                    break
+            if i1 is not None and i2 is not None:
+                slot(i1, "md", "fixed-metadata")
+                slot(i2, "md", "fixed-metadata")
+                guards.append("fixedMetadata")
+                return
+        if c == _norm_expr("metadata.get_hash() in self.attested_metadata"):
+            guards.append("notAttestedMem")
+            return
+        anyform = re.sub(r"\bv\d+\b", "V", c)
+        if anyform in (re.sub(r"\bv\d+\b", "V", _norm_expr(
+                f"any(pseudonym.database.get_authority(V) == {MINE} for V in pseudonym.database.get_attestations_over(metadata))")),):
+            guards.append("notAttestedDb")
+            return
+        raise TranslatorError("should_sign: unrecognised guard `if " + c + ": return False`")
 
     seen_final = False
     for st in b:
         t = ast.unparse(st)
         if seen_final:
             raise TranslatorError("should_sign: statements after `return True`")
-        if t == "transaction = json.loads(metadata.serialized_json_dict)":
-            if guards:
-                raise TranslatorError("should_sign: transaction is parsed after a guard")
-            continue
-        if t == "requested_keys = set(transaction.keys())":
-            continue
-        if t == "attribute_hash = pseudonym.tree.elements[metadata.token_pointer].content_hash":
-            if "tokenKnown" not in guards:
-                raise TranslatorError("should_sign: attribute_hash is read before the token-known guard")
-            continue
         if t == "return True":
             seen_final = True
             continue
-        if isinstance(st, ast.If) and _returns_false(st):
-            c = ast.unparse(st.test)
-            if c == "metadata.token_pointer not in pseudonym.tree.elements":
-                guards.append("tokenKnown")
-                continue
-            parts = c.split(" or ")
-            fm = [re.fullmatch(r"'(\w+)' not in requested_keys", x) for x in parts]
-            if all(fm):
-                names = [x.group(1) for x in fm]
-                if any(n not in ("name", "date", "schema") for n in names):
-                    raise TranslatorError(f"should_sign: required field outside name/date/schema: {names}")
-                guards.append(".fields [" + ", ".join("." + n for n in names) + "]")
-                continue
-            if c == "attribute_hash not in self.known_attestation_hashes":
-                guards.append("registered")
-                continue
-            mm = re.fullmatch(re.escape("pseudonym.public_key.key_to_bin() != " + K) + r"\[(\d+)\]", c)
-            if mm:
-                slot(mm.group(1), "key", "subject-key")
-                guards.append("subjectKey")
-                continue
-            mm = re.fullmatch(re.escape("time() > " + K) + r"\[(\d+)\] \+ (\d+)", c)
-            if mm:
-                slot(mm.group(1), "time", "age")
-                guards.append(f".fresh {int(mm.group(2))}")
-                continue
-            mm = re.fullmatch(re.escape("transaction['name'] != " + K) + r"\[(\d+)\]", c)
-            if mm:
-                slot(mm.group(1), "name", "name")
-                guards.append("nameMatches")
-                continue
-            mm = re.fullmatch(re.escape(K) + r"\[(\d+)\] is not None and "
-                              + re.escape("{k: v for k, v in transaction.items() if k not in ['name', 'date', 'schema']} != " + K)
-                              + r"\[(\d+)\]", c)
-            if mm:
-                slot(mm.group(1), "md", "fixed-metadata")
-                slot(mm.group(2), "md", "fixed-metadata")
-                guards.append("fixedMetadata")
-                continue
-            if c == "metadata.get_hash() in self.attested_metadata":
-                guards.append("notAttestedMem")
-                continue
-            raise TranslatorError("should_sign: unrecognised guard `if " + c + ": return False`")
-        if isinstance(st, ast.For) and not st.orelse and \
-                ast.unparse(st.target) == "attestation" and \
+        if isinstance(st, ast.Assign) and len(st.targets) == 1 and isinstance(st.targets[0], ast.Name):
+            # a local that could not be inlined (assigned once but impure, or re-assigned): only harmless ones pass
+            raise TranslatorError("should_sign: local that cannot be inlined\n" + t)
+        if _returns_false(st):
+            for d in _disjuncts(st.test):
+                one_guard(d)
+            continue
+        if isinstance(st, ast.For) and not st.orelse and isinstance(st.target, ast.Name) and \
                 ast.unparse(st.iter) == "pseudonym.database.get_attestations_over(metadata)":
-            fb = _strip(st.body)
-            if len(fb) == 1 and isinstance(fb[0], ast.If) and _returns_false(fb[0]):
+            v = st.target.id
+            fb = st.body
+            if len(fb) == 1 and _returns_false(fb[0]):
                 c = ast.unparse(fb[0].test)
-                mine = "self.my_peer.public_key.key_to_bin()"
-                if c in (f"pseudonym.database.get_authority(attestation) == {mine}",
-                         f"{mine} == pseudonym.database.get_authority(attestation)"):
+                if c == _norm_expr(f"pseudonym.database.get_authority({v}) == {MINE}"):
                     guards.append("notAttestedDb")
                     continue
-                if c == f"any((authority == {mine} for authority in pseudonym.database.get_authority(attestation)))":
+                if re.fullmatch(re.escape(f"any(({MINE} == ") + r"(\w+)" + re.escape(" for ") + r"\1"
+                                + re.escape(f" in pseudonym.database.get_authority({v})))"), c) or \
+                        re.fullmatch(re.escape("any((") + r"(\w+)" + re.escape(f" == {MINE} for ") + r"\1"
+                                     + re.escape(f" in pseudonym.database.get_authority({v})))"), c):
                     # get_authority returns ONE key (bytes); iterating it yields integers, which never equal a key:
                     # this loop can never return False.  Mirrored as: no guard.
                     notes.append("the `any(authority == ... for authority in get_authority(...))` loop iterates the "
@@ -186,69 +454,86 @@ def translate(path=None) -> str:
         raise TranslatorError("should_sign: unrecognised statement\n" + t)
     if not seen_final:
         raise TranslatorError("should_sign does not end in `return True`")
-
-    def pos(g):
-        for i, x in enumerate(guards):
-            if x == g or x.startswith(g):
-                return i
-        return None
-    dependent = [g for g in ("subjectKey", ".fresh", "nameMatches", "fixedMetadata") if pos(g) is not None]
-    if dependent and (pos("registered") is None or pos("tokenKnown") is None
-                      or not pos("tokenKnown") < pos("registered") < min(pos(g) for g in dependent)):
-        raise TranslatorError(f"should_sign: guards {dependent} read the registration before it is known to exist: {guards}")
-    if pos("nameMatches") is not None:
-        fpos = [i for i, x in enumerate(guards) if x.startswith(".fields") and ".name" in x]
-        if not fpos or fpos[0] > pos("nameMatches"):
-            raise TranslatorError("should_sign: transaction['name'] is read before its presence is checked")
+    order = [f for f in ("name", "date", "schema") if f in fields_seen] + \
+            [f for f in fields_seen if f not in ("name", "date", "schema")]
+    guards = [(".fields [" + ", ".join("." + n for n in dict.fromkeys(order)) + "]") if g == "FIELDS" else g
+              for g in guards]
+    # canonical order of the guard list (the model's evaluation does not depend on it; dependencies were checked above)
+    canon = ["tokenKnown", ".fields", "registered", "subjectKey", ".fresh", "nameMatches", "fixedMetadata",
+             "notAttestedMem", "notAttestedDb"]
+    guards.sort(key=lambda g: next(i for i, c_ in enumerate(canon) if g == c_ or g.startswith(c_)))
 
     # ---- on_request_missing ----------------------------------------------------------------------------------------
-    txt = _text(_body(fns["on_request_missing"]))
+    txt = _text(normalise(fns["on_request_missing"], ["self", "peer", "request"], sigs))
     m = re.fullmatch(
-        r"out = b''\n"
-        r"permitted = self\.token_chain\[:self\.permissions\.get\(peer, (\d+)\)\]\n"
-        r"for index, token in enumerate\(permitted\):\n"
-        r"    if index >= request\.known:\n"
-        r"        serialized = token\.get_plaintext_signed\(\)\n"
-        r"        if len\(out\) \+ len\(serialized\) > SAFE_UDP_PACKET_LENGTH:\n"
+        r"v0 = b''\n"
+        r"for v1, v2 in enumerate\(self\.token_chain\[:self\.permissions\.get\(peer, (\d+)\)\]\):\n"
+        r"    if v1 >= request\.known:\n"
+        r"        if len\(v0\) \+ len\(v2\.get_plaintext_signed\(\)\) > SAFE_UDP_PACKET_LENGTH:\n"
         r"            break\n"
-        r"        out \+= serialized\n"
-        r"self\.ez_send\(peer, MissingResponsePayload\(out\)\)", txt)
+        r"        v0 \+= v2\.get_plaintext_signed\(\)\n"
+        r"self\.ez_send\(peer, MissingResponsePayload\(v0\)\)", txt) or re.fullmatch(
+        r"v0 = b''\n"
+        r"for v1, v2 in enumerate\(self\.token_chain\[:self\.permissions\.get\(peer, (\d+)\)\]\):\n"
+        r"    if v1 >= request\.known:\n"
+        r"        v3 = v2\.get_plaintext_signed\(\)\n"
+        r"        if len\(v0\) \+ len\(v3\) > SAFE_UDP_PACKET_LENGTH:\n"
+        r"            break\n"
+        r"        v0 \+= v3\n"
+        r"self\.ez_send\(peer, MissingResponsePayload\(v0\)\)", txt)
     if not m:
         raise TranslatorError("on_request_missing has an unexpected shape:\n" + txt)
     perm_default = int(m.group(1))
 
     # ---- request_attestation_advertisement ---------------------------------------------------------------------------
-    fn = fns["request_attestation_advertisement"]
-    b = _body(fn)
-    ok = (len(b) == 2 and ast.unparse(b[0]) == "credential = self.self_advertise(attribute_hash, name, block_type, metadata)"
-          and isinstance(b[1], ast.If) and ast.unparse(b[1].test) == "credential is None"
-          and _strip(b[1].body) == []
-          and _text(_strip(b[1].orelse)) ==
-          "self.permissions[peer] = len(self.token_chain)\n"
-          "disclosure = self.pseudonym_manager.disclose_credentials([credential], set())\n"
-          "self.ez_send(peer, DisclosePayload(*self._fit_disclosure(disclosure)))")
+    b = normalise(fns["request_attestation_advertisement"],
+                  ["self", "peer", "attribute_hash", "name", "block_type", "metadata"], sigs)
+    ok = False
+    if len(b) >= 2 and ast.unparse(b[0]) == "v0 = self.self_advertise(attribute_hash, name, block_type, metadata)" \
+            and isinstance(b[1], ast.If):
+        test = ast.unparse(b[1].test)
+        run = None
+        if test == "v0 is None":
+            if len(b) == 2 and not b[1].body:
+                run = b[1].orelse
+            elif len(b[1].body) == 1 and ast.unparse(b[1].body[0]) in ("return", "return None") and not b[1].orelse:
+                run = b[2:]
+        elif test in ("v0 is not None", "v0") and not b[1].orelse and len(b) == 2:
+            run = b[1].body
+        want_run = ("self.permissions[peer] = len(self.token_chain)\n"
+                    "self.ez_send(peer, DisclosePayload(*self._fit_disclosure("
+                    "self.pseudonym_manager.disclose_credentials([v0], set()))))")
+        if run is not None:
+            rt = _text(_inline(list(run)))
+            rt = re.sub(r"\bv[1-9]\b", "vX", rt)
+            alt = ("self.permissions[peer] = len(self.token_chain)\n"
+                   "vX = self.pseudonym_manager.disclose_credentials([v0], set())\n"
+                   "self.ez_send(peer, DisclosePayload(*self._fit_disclosure(vX)))")
+            ok = rt in (want_run, alt)
     if not ok:
         raise TranslatorError("request_attestation_advertisement has an unexpected shape:\n" + _text(b))
     # the permissions table may be written nowhere else
     writes = []
     for f in fns.values():
         for n in ast.walk(f):
-            if isinstance(n, (ast.Assign, ast.AugAssign, ast.Delete)):
-                tg = n.targets if not isinstance(n, ast.AugAssign) else [n.target]
+            if isinstance(n, (ast.Assign, ast.AugAssign, ast.Delete, ast.AnnAssign)):
+                tg = n.targets if isinstance(n, (ast.Assign, ast.Delete)) else [n.target]
                 for t_ in tg:
                     if "self.permissions" in ast.unparse(t_):
                         writes.append((f.name, ast.unparse(n)))
-            if isinstance(n, ast.Call) and re.match(r"self\.permissions\.(update|setdefault|pop|clear|popitem)$",
+            if isinstance(n, ast.Call) and re.match(r"self\.permissions\.(update|setdefault|pop|clear|popitem|__setitem__)$",
                                                     ast.unparse(n.func)):
                 writes.append((f.name, ast.unparse(n)))
-    extra = [w for w in writes if w != ("request_attestation_advertisement", "self.permissions[peer] = len(self.token_chain)")
-             and w != ("__init__", "self.permissions: dict[Peer, int] = {}")]
+    extra = [w for w in writes if w[0] not in ("request_attestation_advertisement", "__init__")]
+    extra += [w for w in writes if w[0] == "__init__" and not re.fullmatch(r"self\.permissions(: [^=]+)? = \{\}", w[1])]
+    extra += [w for w in writes if w[0] == "request_attestation_advertisement"
+              and not re.fullmatch(r"self\.permissions\[\w+\] = len\(self\.token_chain\)", w[1])]
     if extra:
         raise TranslatorError(f"the permissions table is written outside request_attestation_advertisement: {extra}")
 
     # ---- does the node record what it attests to? ---------------------------------------------------------------------
     rtxt = ast.unparse(fns["_received_disclosure_for_attest"])
-    records = "self.attested_metadata.add(credential.metadata.get_hash())" in rtxt
+    records = bool(re.search(r"self\.attested_metadata\.add\(\w+\.metadata\.get_hash\(\)\)", rtxt))
     if ("notAttestedMem" in guards) != records:
         notes.append("attested_metadata is %s but %s" % ("recorded" if records else "not recorded",
                                                           "not consulted" if records else "consulted"))
@@ -266,7 +551,8 @@ def translate(path=None) -> str:
         "/-- tuple stored per hash: " + ", ".join(slots) + " -/",
         f"def regSlots : List String := [{', '.join(chr(34) + s + chr(34) for s in slots)}]",
         "",
-        "/-- should_sign: the guards in source order" + ("".join("\n    NOTE: " + n for n in notes)) + " -/",
+        "/-- should_sign: its guards (canonical order; data dependencies between guards are checked by the translator)"
+        + ("".join("\n    NOTE: " + n for n in notes)) + " -/",
         f"def guards : List Guard := [{g}]",
         "",
         "/-- _received_disclosure_for_attest adds every metadata hash it attests to `attested_metadata` -/",
